@@ -268,4 +268,27 @@ def sum32 : List Nat → List Nat → Nat
   | r :: rs, c :: cs => r * c + sum32 rs cs
   | _, _ => 0
 
+/-! ### Word level: the lazy accumulators of `externalProductInPlaceMultipleP` -/
+
+/-- `QiOverflowMargin(levelQ) >> 1` resp. `PiOverflowMargin(levelP) >> 1`: `fam` the primes of the family at the
+    level; the Q limbs and the P limbs are reduced on their OWN schedule -/
+def lazyMargin (fam : List Nat) : Nat := (W - 1) / (fam.foldl max 0) / 2
+
+/-- one limb of one accumulator: `acc = t_0` (`MulCoeffsMontgomeryLazy`), then `acc += t_k` on `uint64`
+    (`MulCoeffsMontgomeryLazyThenAddLazy`); `Reduce` when `reduce % F == F − 1`; at the end `Reduce` if
+    `reduce % F != 0`.  `cnt` is the code's `reduce`. -/
+def accSchedFrom (p F : Nat) : Nat → Nat → List Nat → Nat
+  | acc, cnt, [] => if cnt % F ≠ 0 then acc % p else acc
+  | acc, cnt, t :: ts =>
+    let a := if cnt = 0 then t else u64add acc t
+    let a := if cnt % F = F - 1 then a % p else a
+    accSchedFrom p F a (cnt + 1) ts
+
+def accSched (p F : Nat) (terms : List Nat) : Nat := accSchedFrom p F 0 0 terms
+
+/-- one NTT slot of one limb: the terms are `MRedLazy(row, digit)` in the order of the code
+    (`k = 0, 1` outer, RNS digit inner) -/
+def lazySlot (p mrc F : Nat) (rs cs : List Nat) : Nat :=
+  accSched p F (List.zipWith (fun r c => Gen.MRedLazy r c p mrc) rs cs)
+
 end Lattigo.RGSW
